@@ -779,7 +779,11 @@ def _prepare_results(results, data, debug):
     if debug:
         results = pd.DataFrame({**data, **results})
     else:
-        results = pd.DataFrame(results)
+        # Rules that depend on parameters only return scalars. Give the index explicitly so
+        # that they are broadcast to one row per input row even if no other target is
+        # requested (a DataFrame cannot be built from scalars alone).
+        n_rows = len(next(iter(data.values())))
+        results = pd.DataFrame(results, index=pd.RangeIndex(n_rows))
     results = _reorder_columns(results)
 
     return results
